@@ -2,6 +2,6 @@ SPECIFICATION Spec
 CONSTANTS
   SHAPES <- T_SHAPES
   DEPTH = 2
-  TRACK = {"x", "x0", "xl", "xr", "y", "xy", "wx"}
+  TRACK = {"x", "x0", "xl", "xr", "xw2", "y", "xy", "wx"}
 INVARIANT WellTyped
 CHECK_DEADLOCK FALSE
